@@ -363,7 +363,7 @@ ChildPlan World::OnSpawn(Kernel& kk, const std::string& cmd, bool console) {
   // (only in -j1 builds: ninja closes the log when it STARTS a generator command; with other
   // commands finishing meanwhile the log is open again and a replacement loses their records -
   // a limit of the design, not of the implementation)
-  bool restat_log = s.generator && !s.regen && prof->generator_restats_log && r.plan.j == 1 && !r.plan.jobserver && !r.plan.editor && tape->Choice(st_stream, 3) == 1;   // (`-t restat` hides an edit made while a command ran: no editor then)
+  bool restat_log = s.generator && !s.regen && prof->generator_restats_log && r.plan.j == 1 && !r.plan.jobserver && !r.plan.editor && !editor_ever && tape->Choice(st_stream, 3) == 1;   // (`-t restat` hides an edit made while a command ran: no editor then)
   eff.fn = [self, scp, outs, sv, snap, rsp_content, rs, hidden, status, fail_mode, myseq, restat, restat_log](Kernel& k2, Child& c) {
     bool partial = c.killed || (status != 0 && fail_mode == 2);
     bool none = status != 0 && fail_mode == 0 && !c.killed;
@@ -508,6 +508,7 @@ InvRecord World::RunInvocation(const InvPlan& plan) {
   InvRecord r;
   r.plan = plan;
   log_restated = false;
+  if (plan.editor) editor_ever = true;   // an edit made while a command ran stays "pending" until that command re-runs
   std::vector<std::string>& a = r.argv;
   a.push_back("ninja");
   char buf[64];
